@@ -38,6 +38,10 @@ mod parser;
 mod rewritable_units;
 mod transform_stream;
 
+#[cfg(feature = "_verif_hooks")]
+#[allow(missing_docs)]
+pub mod verif;
+
 use cfg_if::cfg_if;
 
 pub use self::rewriter::{
